@@ -3,7 +3,7 @@
    the same [xstep] is what the correspondence (Corr.check_case) runs against the recorded calls of the real code. *)
 From Coq Require Import List NArith Bool.
 Import ListNotations.
-From VF Require Import C11.Model C12.Model C12.Proofs C12.ProofsB.
+From VF Require Import C11.Model C12.Model C12.Proofs C12.ProofsB C12.ProofsC.
 Local Open Scope N_scope.
 
 Definition c_det0 : fcfg := {| f_det := true; f_mac := 0; f_rcp := 0 |}.
@@ -59,6 +59,14 @@ Proof.
   apply doc_deformat. auto.
 Qed.
 Print Assumptions decrypts_only_with_key.
+
+(* ... and what a Put hands to the provider decrypts, with the configured key, to exactly the caller's key, value and
+   tags (plus the internal Key tag when document ids are random) — in every state, in both id modes *)
+Theorem put_stores_callers_data : forall (c : fcfg) (s s' : st) (k v : N) (t : list tag) (x : out) (l : list call) (d : term),
+  xstep Fixed c s (XS (Put k v t)) = (s', x, l) -> In d (stored l) ->
+  deformat (f_rcp c) d = Some (tkey k, tval v, map app_tag t ++ (if f_det c then [] else [key_tag (tkey k)])).
+Proof. intros c s s' k v t x l d. apply put_content. Qed.
+Print Assumptions put_stores_callers_data.
 
 (* equal plaintexts never give equal ciphertexts: the stored documents of a history are pairwise different, each
    under its own content key (content keys strictly increase along the log) — whatever was put, also the same
